@@ -10,7 +10,7 @@ import (
 // bindEnv builds the contract environment for fn: the contract's own names
 // are bound to the receiver, parameters and results by position.
 func (vc *VC) bindEnv(fc *FuncContract, fn *ssa.Function, args []*SV, results []*SV, st, old *State) *Env {
-	env := &Env{vc: vc, names: map[string]*SV{}, lets: map[string]Expr{}, st: st, old: old, what: fc.Key}
+	env := &Env{vc: vc, names: map[string]*SV{}, lets: map[string]Expr{}, st: st, old: old, what: fc.Key, pkgPath: fc.Pkg}
 	if fn.Pkg != nil {
 		env.pkg = fn.Pkg.Pkg
 	} else if fn.Origin() != nil && fn.Origin().Pkg != nil {
@@ -202,6 +202,11 @@ func (vc *VC) havocTargets(st *State, targets []modTarget) {
 // existed in old.
 func (vc *VC) frameGoals(old, cur *State, targets []modTarget) map[string]string {
 	goals := map[string]string{}
+	if vc.skR == "" {
+		vc.skR = vc.freshS(SRef, "sk_r")
+		vc.skI = vc.freshS(SBV64, "sk_i")
+	}
+	r, i := vc.skR, vc.skI
 	for _, s := range allHeapSorts {
 		h := s.heap()
 		if old.H[h] == cur.H[h] {
@@ -214,13 +219,12 @@ func (vc *VC) frameGoals(old, cur *State, targets []modTarget) map[string]string
 			}
 			switch t.kind {
 			case "cells":
-				exc = append(exc, and(eq("r!q", t.ref), eq("i!q", t.lo)))
+				exc = append(exc, and(eq(r, t.ref), eq(i, t.lo)))
 			case "range":
-				exc = append(exc, and(eq("r!q", t.ref), app("bvsle", t.lo, "i!q"), app("bvslt", "i!q", t.hi)))
+				exc = append(exc, and(eq(r, t.ref), app("bvsle", t.lo, i), app("bvslt", i, t.hi)))
 			}
 		}
-		goals[h] = fmt.Sprintf("(forall ((r!q (_ BitVec 32)) (i!q (_ BitVec 64))) (=> (and (bvult r!q %s) (not %s)) (= (select (select %s r!q) i!q) (select (select %s r!q) i!q))))",
-			old.H["next"], or(exc...), cur.H[h], old.H[h])
+		goals[h] = implies(and(app("bvult", r, old.H["next"]), not(or(exc...))), eq(sel2(cur.H[h], r, i), sel2(old.H[h], r, i)))
 	}
 	for _, h := range ghostMaps {
 		if old.H[h] == cur.H[h] {
@@ -229,10 +233,10 @@ func (vc *VC) frameGoals(old, cur *State, targets []modTarget) map[string]string
 		var exc []string
 		for _, t := range targets {
 			if t.heap == h && t.kind == "ghost" {
-				exc = append(exc, eq("r!q", t.ref))
+				exc = append(exc, eq(r, t.ref))
 			}
 		}
-		goals[h] = fmt.Sprintf("(forall ((r!q (_ BitVec 32))) (=> (not %s) (= (select %s r!q) (select %s r!q))))", or(exc...), cur.H[h], old.H[h])
+		goals[h] = implies(not(or(exc...)), eq(sel(cur.H[h], r), sel(old.H[h], r)))
 	}
 	return goals
 }
@@ -245,10 +249,10 @@ func (vc *VC) applyContract(f *Frame, n *Node, in ssa.Instruction, fn *ssa.Funct
 	env := vc.bindEnv(fc, fn, args, nil, pre, pre)
 	env.what = callee + " (called from " + f.fn.Name() + ")"
 	for i, r := range fc.Requires {
-		vc.oblige("call-requires", fmt.Sprintf("precondition %d of %s: %s%s", i, callee, r.Text, f.wherei(in)), n.Reach, env.evalBool(r.E), append([]string{"@requires"}, r.Tags...)...)
+		vc.oblige("call-requires", fmt.Sprintf("precondition %d of %s: %s%s", i, callee, r.Text, f.wherei(in)), n.Reach, env.evalGoal(r.E), append([]string{"@requires"}, r.Tags...)...)
 	}
 	if fc.Panics != nil {
-		vc.oblige("call-panics", fmt.Sprintf("%s panics when %s%s", callee, fc.Panics.Text, f.wherei(in)), n.Reach, not(env.evalBool(fc.Panics.E)), "@nopanic")
+		vc.oblige("call-panics", fmt.Sprintf("%s panics when %s%s", callee, fc.Panics.Text, f.wherei(in)), n.Reach, not(env.withPol(-1).evalBool(fc.Panics.E)), "@nopanic")
 	}
 	vc.separation(f, n, in, fn, fc, args)
 	st := n.St
